@@ -60,6 +60,12 @@ class Topology:
                     port = bb.free_port()
                     self.ports[(proto, up)] = port
                     ls.append({"name": "%s_%s" % (proto, up), "type": "http" if proto == "http" else "socks", "bind": "127.0.0.1:%d" % port})
+            # TLS-wrapped listeners (the TLS handshake precedes the proxy handshake)
+            for proto, typ in (("https", "http"), ("sockstls", "socks")):
+                port = bb.free_port()
+                self.ports[(proto, "direct")] = port
+                ls.append({"name": "%s_direct" % proto, "type": typ, "bind": "127.0.0.1:%d" % port,
+                           "tls": {"cert": FX + "/server.crt", "key": FX + "/server.key"}})
             port = bb.free_port()
             self.ports[("socks5", "auth")] = port
             self.ports[("socks4", "auth")] = port
@@ -122,6 +128,10 @@ class Topology:
             return bb.socks5_connect(port, target, early=early, timeout=timeout)
         if proto == "socks4":
             return bb.socks4_connect(port, target, early=early, timeout=timeout)
+        if proto == "https":
+            return bb.http_connect(port, target, early=early, timeout=timeout, tls_ctx=bb.client_tls(ca=FX + "/ca.crt"))
+        if proto == "sockstls":
+            return bb.socks5_connect(port, target, early=early, timeout=timeout, tls_ctx=bb.client_tls(ca=FX + "/ca.crt"))
         return bb.raw_connect(port, early=early, timeout=timeout)
 
 
